@@ -421,6 +421,9 @@ func (m *Uint64Map) EachItem(f func(id uint64, tagged []Tagged, goroutine int) e
 						start = i
 					}
 				}
+				if err != nil {
+					break
+				}
 				if err = f(ids.IDs[start], ids.Tags[start:], goroutine); err != nil {
 					break
 				}
